@@ -2,7 +2,7 @@
 # usage: collect_seed.sh <prop> <slug>   -- verify a sub-agent's seeded change in a fresh scratch worktree and store it
 set -u
 P=$1; M=$2
-SRC=/tmp/mut2/$P/_out/$M
+SRC=${MUTROOT:-/tmp/mut2}/$P/_out/$M
 WT=/tmp/seedchk/$P-$M
 DST=/verif/seeded/$P-$M
 mkdir -p /tmp/seedchk /verif/seeded
